@@ -211,14 +211,38 @@ def decide_condition(pid, cond, tier, seed, scratch, known):
     if cond.kind == "X":
         rec["harness"] = "vcheck/harness/" + cond.harness + ":" + cond.fn
         res = run_x_worker(cond, tier, cond.harness_path(), cond.fn, timeout, scratch)
-        rec["result"] = res
         verdict = res.get("verdict")
+        # A counterexample that does not reproduce concretely = engine infidelity on that input.
+        # Exclude it and keep searching for a *reproducing* violation (sound: the only outcome this
+        # can add is a replayed VIOLATION; otherwise the condition is reported inconclusive).
+        non_repro = []
+        while verdict == "refuted" and res.get("call") and len(non_repro) < 6:
+            rp = concrete_call(cond, tier, res["call"], scratch)
+            if rp.get("outcome") == "reproduced":
+                break
+            non_repro.append(res["call"])
+            cond2 = X(cond.name, cond.harness, cond.fn, env=dict(cond.env, VCHECK_EXCLUDE=json.dumps(non_repro)),
+                      path_timeout=cond.path_timeout)
+            cond2.name = cond.name
+            res = run_x_worker(cond2, tier, cond.harness_path(), cond.fn, timeout, scratch)
+            verdict = res.get("verdict")
+        rec["result"] = res
+        if non_repro:
+            rec["non_reproducing_counterexamples"] = non_repro
+            if verdict != "refuted":
+                rec["status"] = "inconclusive"
+                rec["reason"] = ("engine infidelity: counterexample(s) %s did not reproduce on the real code; "
+                                 "verdict after excluding them: %s" % (non_repro, verdict))
+                return rec
         if verdict == "confirmed":
             # vacuity guard
             if cond.twin:
                 tw = run_x_worker(cond, tier, make_twin_file(cond, scratch), cond.fn,
                                   max(30, timeout // 2), scratch)
-                rec["twin"] = {k: tw.get(k) for k in ("verdict", "call", "wall_s")}
+                if tw.get("verdict") != "refuted":   # transient worker trouble: one retry
+                    tw = run_x_worker(cond, tier, make_twin_file(cond, scratch), cond.fn,
+                                      max(60, timeout), scratch)
+                rec["twin"] = {k: tw.get(k) for k in ("verdict", "call", "wall_s", "messages")}
                 if tw.get("verdict") != "refuted":
                     rec["status"] = "inconclusive"
                     rec["reason"] = "reachability twin not refuted: harness may be vacuous"
